@@ -94,6 +94,14 @@ class Contract:
         for nm, a in zip(names, args):
             env[nm] = a
         for k, v in kwargs.items():
+            if k == "**":
+                kp = getattr(self, "kwarg_param", None)
+                if kp is None:
+                    from .engine import OutOfSubset
+
+                    raise OutOfSubset(node, f"**kwargs passed to {self.target}, whose contract declares no kwarg_param")
+                env[kp] = v
+                continue
             env[k] = v
         for nm in names:
             if nm not in env:
@@ -238,6 +246,8 @@ def verify_function(eng):
     argnames = [a.arg for a in fn.args.args] + [a.arg for a in fn.args.kwonlyargs]
     if fn.args.vararg:
         argnames.append(fn.args.vararg.arg)
+    if fn.args.kwarg:
+        argnames.append(fn.args.kwarg.arg)
     for nm in argnames:
         if nm not in c.params:
             raise OutOfSubset(fn, f"parameter `{nm}` has no type in the contract")
